@@ -12,9 +12,23 @@
 // @oracle time is neither lost nor integrated twice: the first call is asked for T, every restart for exactly what is left, T - (g_1 + ... + g_k), so the completed pieces add up to T whatever the sequence of give-ups; each give-up restarts from the last good state; afterwards simulation time has advanced by exactly T, the reactant amount is never negative and amount + moles transferred equals the initial amount; the mineral assemblage and the solid-solution assemblage of the cell - each present or absent by case split - which the integrator's trial rate evaluations have overwritten, are both back at their state before the integration when the final equilibrium step starts (otherwise that step counts the transfers twice)
 // @stubs CVode, CVodeMalloc, CVDense, CVodeFree (environment, as above); Phreeqc::set_and_run_wrapper, saver, store_get_equi_reactants, calc_final_kinetic_reaction, status, sformatf, error_msg, warning_msg
 // @outside the integrator itself (cvode.cpp: 3500 lines of floating-point step control, not encodable); the rate functions; the "FAIL 2" re-entry after a completed integration
+// @id C11.kinetic_cell_is_mixed_once
+// @also C12
+// @engine B
+// @entry vfh_C11_kinetic_cell_mixing
+// @shared_state_watch
+// @tier Q
+// @opts budget_s=300
+// @reach step.done
+// @funcs Phreeqc::run_reactions; Phreeqc::rk_kinetics
+// @bounds the reaction step of one transport cell that holds kinetic reactants (run_reactions in a TRANSPORT calculation): integrator Runge-Kutta (order 1, 3 or 6) or CVODE, multicomponent diffusion on or off, mixing requested by the transport driver = none / dispersive mix / stagnant mix / boundary mix (case split); rates zero (the integration is trivial); CVODE completes at once
+// @oracle transport only moves dissolved mass: a cell's dispersive (or stagnant) mixing recipe is applied exactly once per step - the first equilibrium calculation of the step is asked for the mixing the transport driver requested, every later calculation of the step for none - whichever integrator the cell's KINETICS block selects and whether or not multicomponent diffusion is switched on (a cell that skips its recipe while its neighbours apply theirs creates or loses mass)
+// @stubs as C12.cvode_time_bookkeeping; calc_kinetic_reaction (zero rates), set_transport
+// @outside the mixing itself (C02.add_mix), the recipes (C11.init_mix, C11.stagnant_exchange_conserves)
 #include "Phreeqc.h"
 #include "cxxKinetics.h"
 #include "Solution.h"
+#include "cxxMix.h"
 #include "PPassemblage.h"
 #include "SSassemblage.h"
 #include "cvode.h"
@@ -30,10 +44,16 @@ static double g_req[8], g_good[8], g_y_final, g_y_at_restart[8];
 static char g_mem[8];
 
 static int g_wrapper_calls = 0;
+static int g_mixrec[16], g_nmixrec = 0;
+int Phreeqc::calc_kinetic_reaction(cxxKinetics *kinetics_ptr, LDBLE time_step) { return OK; }      /* zero rates */
+int Phreeqc::set_transport(int i, int use_mix, int use_kinetics, int nsaver) { return OK; }
+int Phreeqc::set_reaction(int i, int use_mix, int use_kinetics) { return OK; }
+int Phreeqc::set_advection(int i, int use_mix, int use_kinetics, int nsaver) { return OK; }
 static int g_final_pp_ok = -1, g_final_ss_ok = -1, g_has_pp = 0, g_has_ss = 0;
 int Phreeqc::set_and_run_wrapper(int i, int use_mix, int use_kinetics, int nsaver, LDBLE step_fraction)
 {
 	iterations = 1;
+	if (g_nmixrec < 16) g_mixrec[g_nmixrec++] = use_mix;
 	/* as the real routine does: the assemblages of cell i are the ones in use */
 	use.Set_pp_assemblage_ptr(Utilities::Rxn_find(Rxn_pp_assemblage_map, i));
 	use.Set_ss_assemblage_ptr(Utilities::Rxn_find(Rxn_ss_assemblage_map, i));
@@ -144,4 +164,45 @@ extern "C" void vfh_C12_cvode_restart(void)
 	vf_close("cvode.amount_plus_transfer_is_initial", kc.Get_m() + kc.Get_moles(), m0, 1e-12, 1e-15);
 	double want_m = m0 - g_y_final; if (want_m < 0) want_m = 0;
 	vf_close("cvode.amount_is_initial_minus_reacted", kc.Get_m(), want_m, 1e-12, 1e-15);
+}
+
+extern "C" void vfh_C11_kinetic_cell_mixing(void)
+{
+	Phreeqc *p = g_p = (Phreeqc *) vf_raw(sizeof(Phreeqc));
+	new (&p->Rxn_kinetics_map) std::map<int, cxxKinetics>();
+	new (&p->Rxn_solution_map) std::map<int, cxxSolution>();
+	new (&p->Rxn_pp_assemblage_map) std::map<int, cxxPPassemblage>();
+	new (&p->Rxn_ss_assemblage_map) std::map<int, cxxSSassemblage>();
+	new (&p->Rxn_mix_map) std::map<int, cxxMix>();
+	new (&p->Dispersion_mix_map) std::map<int, cxxMix>();
+	new (&p->m_temp) std::vector<double>();
+	new (&p->m_original) std::vector<double>();
+	new (&p->rk_moles) std::vector<double>();
+	new (&p->use) cxxUse();
+	p->state = TRANSPORT; p->count_cells = 3;
+	p->use.Set_kinetics_in(true);
+	static const int INTEG[4] = {0, 1, 3, 6};       /* 0: CVODE */
+	int integ = INTEG[vf_int("integrator", 0, 3)];
+	p->multi_Dflag = (int) vf_int("multicomponent_diffusion", 0, 1);
+	static const int MIXK[4] = {NOMIX, DISP, STAG, MIX_BS};
+	int req = MIXK[vf_int("mixing_requested", 0, 3)];
+	g_fail = 0; g_y_final = 0.0;
+	p->rate_sim_time_start = 0; p->rate_sim_time = 0;
+	cxxKinetics kin;
+	kin.Set_n_user(2); kin.Set_n_user_end(2);
+	kin.Set_use_cvode(integ == 0); kin.Set_rk(integ ? integ : 3); kin.Set_bad_step_max(10); kin.Set_cvode_steps(100); kin.Set_cvode_order(5); kin.Set_step_divide(1.0);
+	cxxKineticsComp c;
+	c.Set_rate_name("R"); c.Set_m(1.0); c.Set_m0(1.0); c.Set_tol(1e-8); c.Set_moles(0.0);
+	kin.Get_kinetics_comps().push_back(c);
+	p->Rxn_kinetics_map[2] = kin;
+	cxxSolution s; s.Set_n_user(2); s.Set_n_user_end(2);
+	p->Rxn_solution_map[2] = s;
+	int rc = p->run_reactions(2, 3600.0, req, 1.0);
+	vf_reach("step.done");
+	vf_check("step.rc", rc == OK);
+	vf_check("step.equilibrium_calculations_recorded", g_nmixrec >= 2 && g_nmixrec < 16);
+	vf_check("step.first_calculation_applies_the_requested_mixing", g_nmixrec >= 1 && g_mixrec[0] == req);
+	bool later_none = true;
+	for (int k = 1; k < g_nmixrec; k++) later_none = later_none && g_mixrec[k] == NOMIX;
+	vf_check("step.later_calculations_do_not_mix_again", later_none);
 }
